@@ -190,6 +190,11 @@ func (e *executor) Prepare(workflow *Workflow, workflowContext map[string][]byte
 				if err := linkInputScope(outputSchemaData.Schema()); err != nil {
 					return nil, &ErrInvalidWorkflow{fmt.Errorf("invalid output schema for output %s (%w)", outputID, err)}
 				}
+				// Like the input scope, it may refer to objects of the steps. A reference that is still not linked after
+				// this would panic when the output is produced.
+				if err := applyLifecycleNamespaces(stepLifecycles, outputSchemaData.Schema()); err != nil {
+					return nil, &ErrInvalidWorkflow{fmt.Errorf("invalid output schema for output %s (%w)", outputID, err)}
+				}
 			}
 			outputSchema = outputSchemaData
 		}
